@@ -5,9 +5,14 @@
         | {"ev":"bind","v":name,"dims":[[key|null,axis,EXPR|null],..]}
         | {"ev":"scope","parent":[[key,v,axis],..],"fin":name,"dims":[[key|null,axis,EXPR|null],..]}
         | {"ev":"call","exprs":[EXPR | {"int":n},..]}
-     -> {"calls":[{"trees":[..],"missing":[..],"vals":[[[memo,plain,jax] per binding] per expr]},..],
+     -> {"calls":[{"trees":[..],"missing":[..],"vals":[[[memo,plain,jax] per binding] per expr],
+                   "fits":[bool per expr: no node of the memoised chain leaves int64 on any binding]},..],
          "table":[[key,v,axis],..],"consistent":bool (keysConsistent of all lowered expressions),
          "cache_keys":[..] (final memo keys, newest first)}
+  {"op":"scoperun","ops":[SOP,..]}   the scope machine of Model/C04Scope.lean, started on the stack [[]]
+     SOP = {"o":"record","v":name,"dims":[[key|null,axis],..]} | {"o":"enter","ins":[{"fin":name,"dims":[..]},..]}
+         | {"o":"sub"} | {"o":"exit"} | {"o":"snap","id":n}   (snap: report the current context's table)
+     -> {"snaps":[[id,[[key,v,axis],..]],..],"depth":n}
   {"op":"ops","pairs":[[x,y],..]} -> {"tdiv":[..],"mod":[..],"floordiv":[..],"sub":[..],"max":[..],"min":[..],
                                        "fdiv":[..],"fmod":[..],"pow":[..]}
 
@@ -16,6 +21,7 @@
 -/
 import Lean.Data.Json
 import J2O.Model.C04
+import J2O.Model.C04Scope
 open Lean J2O.C04
 
 abbrev R := Except String
@@ -138,11 +144,43 @@ def stepEvent (syms : List String) (bindings : List (List Int)) (st : St) (ev : 
         match eo with
         | some e => Json.arr #[Json.num (tree.eval sh), Json.num ((lowerExpr org e).eval sh), Json.num (e.evalJax σ)]
         | none => Json.arr #[Json.num (tree.eval sh), Json.num (tree.eval sh), Json.num (tree.eval sh)]
+    let fits := r.1.map fun (tree, _) =>
+      Json.bool <| bindings.all fun b =>
+        let sh := shapesOf st.recs (sigmaOf syms b)
+        tree.fits sh && tree.eval64 sh == tree.eval sh
     let out := Json.mkObj [("trees", Json.arr (r.1.toArray.map fun t => Json.str t.1.render)),
                            ("missing", Json.arr (missing.toArray.map Json.str)),
-                           ("vals", Json.arr vals.toArray)]
+                           ("vals", Json.arr vals.toArray), ("fits", Json.arr fits.toArray)]
     pure { st with cache := r.2, calls := st.calls.push out, exprs := st.exprs ++ es }
   | k => throw s!"bad-event:{k}"
+
+/-- dims without expressions: `[[key|null, axis], ..]` -/
+def parseDims2 (j : Json) : R Dims := do
+  let rows ← j.getArr?
+  rows.toList.mapM fun r => do
+    let a ← r.getArr?
+    let key := match a[0]!.getStr? with | .ok s => some s | .error _ => none
+    pure (key, ← a[1]!.getNat?)
+
+def tableJson (t : OTable) : Json :=
+  Json.arr ((dedupTable t).map fun (k, o) => Json.arr #[Json.str k, Json.str o.v, Json.num (o.axis : Int)]).toArray
+
+def scopeStep (acc : Stack × Array Json) (j : Json) : R (Stack × Array Json) := do
+  let o ← (← j.getObjVal? "o").getStr?
+  match o with
+  | "record" =>
+    pure (acc.1.step (.record (← (← j.getObjVal? "v").getStr?) (← parseDims2 (← j.getObjVal? "dims"))), acc.2)
+  | "enter" =>
+    let ins ← (← (← j.getObjVal? "ins").getArr?).toList.mapM fun i => do
+      pure ((← (← i.getObjVal? "fin").getStr?), (← parseDims2 (← i.getObjVal? "dims")))
+    pure (acc.1.step (.enter ins), acc.2)
+  | "sub" => pure (acc.1.step .sub, acc.2)
+  | "exit" => pure (acc.1.step .exit, acc.2)
+  | "snap" =>
+    let id ← (← j.getObjVal? "id").getInt?
+    let t := match acc.1 with | t :: _ => tableJson t | [] => Json.null
+    pure (acc.1, acc.2.push (Json.arr #[Json.num id, t]))
+  | k => throw s!"bad-scope-op:{k}"
 
 def ints (j : Json) : R (List Int) := do (← j.getArr?).toList.mapM (·.getInt?)
 
@@ -162,6 +200,10 @@ def handle (line : String) : R Json := do
     pure (Json.mkObj [("calls", Json.arr st.calls), ("table", Json.arr tab.toArray),
                       ("consistent", Json.bool (keysConsistent st.exprs)),
                       ("cache_keys", Json.arr keys.toArray)])
+  | "scoperun" =>
+    let ops ← (← j.getObjVal? "ops").getArr?
+    let r ← ops.toList.foldlM scopeStep (([[]] : Stack), (#[] : Array Json))
+    pure (Json.mkObj [("snaps", Json.arr r.2), ("depth", Json.num (r.1.length : Int))])
   | "ops" =>
     let pairs ← (← (← j.getObjVal? "pairs").getArr?).toList.mapM ints
     let col (f : Int → Int → Int) := Json.arr (pairs.toArray.map fun p => Json.num (f p[0]! p[1]!))
